@@ -44,11 +44,12 @@ def run(rep, tier, seed, budget):
             table = ctx.sym_table(dech.KEYS_CORE)
             ctx.reset(table)
             attr = fresh_bool("attribute")
+            comp = fresh_bool("compatible")
             toks = make_tokens("t", N, A13)
-            a = bool(attr)
-            r1 = _norm(dech.run_decoder(ctx, TokStr(toks), attribute=a))
+            a, c = bool(attr), bool(comp)
+            r1 = _norm(dech.run_decoder(ctx, TokStr(toks), attribute=a, compatible=c))
             ctx.reset(table)
-            r2 = _norm(dech.run_decoder(ctx, TokStrNoNop(toks), attribute=a))
+            r2 = _norm(dech.run_decoder(ctx, TokStrNoNop(toks), attribute=a, compatible=c))
             m = eng.current_model()
             x = dech.concrete_selfies(m, toks)
             nn = x.count("[nop]")
@@ -58,12 +59,12 @@ def run(rep, tier, seed, budget):
                 col.sample({"x": x, "result": str(r1)[:80]})
             if r1 != r2:
                 col.candidate({"prop": "C13", "kind": "nop_invisible", "selfies": x, "table": table_model(m, table),
-                               "attribute": a})
+                               "attribute": a, "compatible": c})
         return path
 
     for n in ((1, 2, 3, 4, 5) if quick else (1, 2, 3, 4, 5, 6, 7)):
         left = t_end - time.time()
-        name = "differential N=%d: decoder(x) vs decoder(x without [nop]), table and attribute free" % n
+        name = "differential N=%d: decoder(x) vs decoder(x without [nop]), table, attribute and compatible free" % n
         if left < 5:
             rep.parts.append({"name": name, "complete": False, "paths": 0, "bounds": {"N": n}, "claim": "not started (time budget)"})
             continue
